@@ -21,7 +21,9 @@ Regions == {"na", "tktCipher", "authCipher", "other"}      \* where a byte mutat
 Cookies == {"none", "own", "unknown", "unauth", "garbage"}  \* own: the cookie of the session this client established;
                                                             \* unauth/garbage: the application's session holds a credentials
                                                             \* blob that no successful authentication wrote
-Stores == {"nosm", "ok", "getFails", "newFails"}
+Stores == {"nosm", "ok", "getFails", "newFails",
+           "getFailsStale"}     \* the store's Get reports an error AND hands back the record it holds (a revoked or expired session):
+                                \* an error means "no session" (spnego.SessionMgr), whatever comes with it
 
 \* a framing through which an AP-REQ can reach verification at all
 Framed(h) == h.class \in {"negInit", "negResp", "rawKRB5", "mutated"} /\ h.tok = "apreq"
